@@ -380,6 +380,23 @@ def m_dematerialize(a, evs, t0):
     return list(evs)
 
 
+def m_dematerialize_mapped(a, evs, t0):
+    out = []
+    for t, k, v in evs:
+        if k != "N":
+            out.append((t, k, v))
+            break
+        r = vt.h(v) % 7
+        if r == 0:
+            out.append((t, "C", None))
+            break
+        if r == 1:
+            out.append((t, "E", vt.SourceError("demat")))
+            break
+        out.append((t, "N", ("d", v)))
+    return out
+
+
 def m_identity(a, evs, t0):
     return list(evs)
 
@@ -676,7 +693,7 @@ ELEMENTWISE = {
     "skip_last": m_skip_last, "take_last_buffer": m_take_last_buffer, "element_at": m_element_at,
     "element_at_or_default": m_element_at_or_default, "find": m_find, "find_index": m_find_index,
     "starmap": m_starmap, "pluck": m_pluck, "materialize": m_materialize,
-    "dematerialize": m_dematerialize, "as_observable": m_identity,
+    "dematerialize": m_dematerialize, "dematerialize_mapped": m_dematerialize_mapped, "as_observable": m_identity,
 }
 
 AGGREGATES = {
